@@ -46,7 +46,7 @@ impl Prop for Postfilter {
         "cepstra as in C06 (orders 3..40 and order 2), alpha in {0} u [0,0.6], beta in (0,0.5] (and beta = 0); frame-2 pulse responses with and without beta: ln|H_b| - ln|H_0| - beta*sum_{m>=2} c_m cos(m w~) constant over w within 0.005; energies equal within 1 %; beta = 0 or length 2 -> responses bitwise identical. Non-trivial: beta > 0, length >= 3, both references decay".into()
     }
     fn tape_len(&self, _: Tier) -> usize {
-        4 * 42 + 16
+        8 * 44 + 32
     }
     fn cases(&self, tier: Tier) -> u32 {
         tier.pick(8_000, 120_000)
@@ -56,7 +56,7 @@ impl Prop for Postfilter {
         let alpha = gen_alpha(t);
         let len = match t.weighted(&[1, 6, 2]) {
             0 => 2,
-            1 => t.urange(3, 40),
+            1 => t.urange(3, 41),
             _ => t.urange(3, 6),
         };
         let beta = match t.weighted(&[1, 6, 2]) {
